@@ -15,7 +15,7 @@
    get_hcables = the cables of get_hwires (any heap, any selection); the narrow selections INSIDE /
    OUTSIDE / BOTH from pin / wire / port / cable starts; pins of a wire; the full statement C12_full
    with its proof C12_full_holds, and C12_full_nodup_holds ("each once" in every conjunct). *)
-From Coq Require Import List Arith Bool.
+From Coq Require Import List Arith NArith Bool.
 From SV Require Import Base.Base IR.State Proofs.Inv1a Proofs.Inv2a Hier.Paths Hier.Enum Hier.Trace Hier.Conn
   Proofs.HierClosure Proofs.HierTrace Proofs.HierNarrow Proofs.HierTraceEx
   Proofs.HierTracePort Proofs.HierTraceCable Proofs.HierCables Proofs.HierNarrowStarts Proofs.HierCablesEx
@@ -496,6 +496,46 @@ Example C12_roots_example_collection :
             length l = 4 /\ NoDup l.
 Proof. exact ex3_roots_collection. Qed.
 
+(* the collection model restricted to ONE reference that is not an instance is the single-reference
+   model of Hier/Trace.v (equality of the answers, any heap, any selection / patterns / mark): every
+   theorem above about wire / pin / port / cable starts speaks about get_hwires_roots [RHref ..] too *)
+Theorem C12_roots_single_reference_agrees : forall s x r pat usum obj,
+  head_not_instance s obj ->
+  get_hwires_roots s x r pat usum [RHref obj] = get_hwires s x r usum obj.
+Proof. exact get_hwires_roots_href_single. Qed.
+
+Theorem C12_roots_all_from_wire_reference : forall s t,
+  Inv1a s -> Inv2a s -> WFk s -> WFc s -> is_root s t ->
+  forall n U pat x, acyclic s -> top s n = Some t -> all_hwires s n = Some U -> hwire_occ s t x ->
+  exists l, get_hwires_roots s SAll false pat (pin_weight s U) [RHref x] = Some l /\
+            (forall b, In b l <-> Conn.conn s t x b).
+Proof. exact get_hwires_roots_ALL_wire. Qed.
+
+(* ---- YIELD ORDER where the design determines it (one netlist / instance-reference root through the
+        name map: get_ordered, compared with the implementation as a LIST on every run). The pattern
+        loop yields each reference once, and exactly the registered references whose name some pattern
+        selects - the ordered answer has the elements of the (unordered) collection model ---- *)
+Theorem C12_order_pattern_loop_no_duplicates : forall ab mt pats regs,
+  NoDup (pattern_loop ab mt pats regs).
+Proof. exact pattern_loop_nodup. Qed.
+
+Theorem C12_order_pattern_loop_elements : forall ab mt pats regs h,
+  In h (pattern_loop ab mt pats regs) <->
+  exists nm, In (nm, h) regs /\ pat_sel ab mt pats nm = true.
+Proof. exact pattern_loop_In. Qed.
+
+Theorem C12_order_answer_elements : forall s k r ab mt pats obj l,
+  get_ordered s k r ab mt pats obj = Some (Some l) -> is_valid s obj = true ->
+  exists regs nms, registrations s k r obj = Some regs /\
+    all_some (map (rel_name s (pred (length obj))) regs) = Some nms /\ NoDup l /\
+    (forall h, In h l <-> exists nm, In (nm, h) (combine nms regs) /\ pat_sel ab mt pats nm = true).
+Proof. exact get_ordered_elements. Qed.
+
+Example C12_order_example :
+  get_ordered ex3 OWires true (fun _ => false) (fun _ _ => true) [[42%N]] [14]
+  = Some (Some [[12; 11; 14]; [13; 11; 14]; [7; 6; 10; 14]; [8; 6; 10; 14]]).
+Proof. exact ex3_ordered. Qed.
+
 (* ---- kept as a statement, not proved: (a) from a hierarchical instance with selection ALL the answer is
         saturated - it is exactly the union of the connectivity classes of the wires at or below the
         instance and of the wires attached outside to its own pins (C12_roots_all_instance gives the
@@ -524,3 +564,7 @@ Print Assumptions C12_roots_all_union.
 Print Assumptions C12_roots_all_instance.
 Print Assumptions C12_roots_hypotheses_satisfiable_example.
 Print Assumptions C12_roots_example_collection.
+Print Assumptions C12_roots_single_reference_agrees.
+Print Assumptions C12_roots_all_from_wire_reference.
+Print Assumptions C12_order_pattern_loop_elements.
+Print Assumptions C12_order_answer_elements.
